@@ -185,4 +185,3 @@ func verifC07LegalLengths() {
 		vReach("write")
 	}
 }
-
